@@ -302,6 +302,27 @@ func checkTraversal(c *explore.Ctx, roots []ast.Node, list bool, maxAll int, wit
 			if len(pm) != len(wantNodes) {
 				report("C17/preordermany", fmt.Sprintf("PreorderMany yields %d nodes, want %d", len(pm), len(wantNodes)))
 			}
+			// PreorderMany stops as soon as the consumer stops (also across roots)
+			for i := 0; i < len(wantNodes) && i < 40; i++ {
+				cnt, stop := 0, false
+				explore.Try(func() {
+					ast.PreorderMany(roots)(func(ast.Node) bool {
+						if stop {
+							cnt = -1 << 20
+						}
+						cnt++
+						if cnt > i {
+							stop = true
+							return false
+						}
+						return true
+					})
+				})
+				if cnt != i+1 {
+					report("C17/preordermany-early-exit", fmt.Sprintf("consumer stops at node %d of %d (over %d roots): yield was called %d times, want %d", i, len(wantNodes), len(roots), cnt, i+1))
+					break
+				}
+			}
 		}
 	}
 }
